@@ -372,8 +372,17 @@ func (a *wana) flows(root *wfunc) {
 				root.nassign[obj(id)] += 2
 			}
 		case *ast.CallExpr:
-			// x.M(args) may store the arguments in x (params.Set("password", pass))
-			if sel, ok := v.Fun.(*ast.SelectorExpr); ok {
+			// x.M(args) may store the arguments in x (params.Set("password", pass)); a device-I/O call
+			// (s.client.Do(req), c.con.Send(line)) hands them to the device instead — that is a sink
+			isIO := false
+			if fo := calleeFunc(info, v); fo != nil && fo.Pkg() != nil && !strings.HasPrefix(fo.Pkg().Path(), mod) {
+				var recv ast.Expr
+				if se, ok := ast.Unparen(v.Fun).(*ast.SelectorExpr); ok && info.Selections[se] != nil {
+					recv = se.X
+				}
+				_, isIO = classifyExt(info, fo.Origin(), v, recv)
+			}
+			if sel, ok := v.Fun.(*ast.SelectorExpr); ok && !isIO {
 				if id := baseIdent(sel.X); id != nil {
 					if o, ok := obj(id).(*types.Var); ok && !o.IsField() {
 						for _, arg := range v.Args {
